@@ -390,6 +390,20 @@ Definition bond_struct_eqb (a b : bond) : bool := b_ord a =? b_ord b.
 Definition mol_struct_eqb (g h : mol) : bool :=
   list_eqb (pair_eqb Z.eqb atom_struct_eqb) (m_atoms g) (m_atoms h) &&
   list_eqb (pair_eqb Z.eqb (list_eqb (pair_eqb Z.eqb bond_struct_eqb))) (m_adj g) (m_adj h).
+(* hydrogens the code leaves to calc_implicit (None in the model): the observed count must be the one the library computes
+   for a molecule REBUILT from scratch (add_atom / add_bond) with the atoms and bonds of the observed product; `rebuilt` lists
+   that count per atom (None where the rebuild has no count, e.g. aromatic atoms in the raw mode: anything accepted) *)
+Definition atom_h_eqb (rebuilt : list (Z * option Z)) (na nb : Z * atom) : bool :=
+  (fst na =? fst nb) && atom_struct_eqb (snd na) (snd nb) &&
+  match a_h (snd na), zget rebuilt (fst na) with
+  | None, Some (Some h) => option_eqb Z.eqb (Some h) (a_h (snd nb))
+  | _, _ => true
+  end.
+Definition mol_struct_h_eqb (rebuilt : list (Z * option Z)) (g h : mol) : bool :=
+  list_eqb (atom_h_eqb rebuilt) (m_atoms g) (m_atoms h) &&
+  list_eqb (pair_eqb Z.eqb (list_eqb (pair_eqb Z.eqb bond_struct_eqb))) (m_adj g) (m_adj h).
+Definition patch_res_h_eqb (rebuilt : list (Z * option Z)) (model impl : pyres (mol * list (Z * Z))) : bool :=
+  pyres_eqb (fun x y => mol_struct_h_eqb rebuilt (fst x) (fst y) && list_eqb (pair_eqb Z.eqb Z.eqb) (snd x) (snd y)) model impl.
 Definition patch_res_eqb (model impl : pyres (mol * list (Z * Z))) : bool :=
   pyres_eqb (fun x y => mol_struct_eqb (fst x) (fst y) && list_eqb (pair_eqb Z.eqb Z.eqb) (snd x) (snd y)) model impl.
 Definition zlist_res_eqb (model impl : pyres (list Z)) : bool := pyres_eqb (list_eqb Z.eqb) (sorted_res model) impl.
